@@ -75,8 +75,7 @@ def boundary_case():
         v = api.tensor(c, "v", (1,), pos=True)
         s = api.tensor(c, "s", (1,), hi=0)
         ss = api.elem(s, 0)
-        if c.mode == "sym":
-            c.assume(api.lt(ss, 0))
+        c.assume(api.lt(ss, 0))
         zero = s * 0
         # American binary: price is 1 on the barrier (spot = strike) and once the barrier has been reached
         m_neg = zero - 1
@@ -85,9 +84,8 @@ def boundary_case():
         c.check("ambinary equals 1 once the barrier is reached", api.eq(api.elem(F.bs_american_binary_price(s, mpos, t, v), 0), 1))
         # lookback: continuity where the running maximum crosses the strike
         m0 = api.tensor(c, "m0", (1,), hi=0)
-        if c.mode == "sym":
-            c.assume(api.lt(api.elem(m0, 0), 0))
-            c.assume(api.ge(api.elem(m0, 0), ss))
+        c.assume(api.lt(api.elem(m0, 0), 0))
+        c.assume(api.ge(api.elem(m0, 0), ss))
         c.check("lookback continuous at max = strike",
                 api.eq(api.elem(F.bs_lookback_price(s, m0, t, v, K), 0), api.elem(F.bs_lookback_price(s, zero, t, v, K), 0), tol=1e-6))
         # lookback: dP/dM = 0 at M = S on the branch max >= strike
